@@ -41,6 +41,10 @@ struct Inner {
     mode: AtomicU64,
     verify_called_for_pregenesis: AtomicU64,
     stop: AtomicBool,
+    /// rotating committees (empty = static schedule in genesis): (schedule, activation block, the execution layer announces it
+    /// as pending once its head has reached this block)
+    epochs: Vec<(validator::Schedule, u64, u64)>,
+    schedule_queries: AtomicU64,
 }
 
 #[derive(Debug, Clone)]
@@ -106,11 +110,24 @@ impl EngineInterface for MonEngine {
     async fn genesis(&self, _ctx: &ctx::Ctx) -> ctx::Result<validator::Genesis> {
         Ok(self.0.genesis.clone())
     }
-    async fn get_validator_schedule(&self, _ctx: &ctx::Ctx, _n: validator::BlockNumber) -> ctx::Result<(validator::Schedule, validator::BlockNumber)> {
-        Ok((self.0.genesis.validators_schedule.clone().unwrap(), self.0.genesis.first_block))
+    async fn get_validator_schedule(&self, _ctx: &ctx::Ctx, n: validator::BlockNumber) -> ctx::Result<(validator::Schedule, validator::BlockNumber)> {
+        if self.0.epochs.is_empty() {
+            return Ok((self.0.genesis.validators_schedule.clone().unwrap(), self.0.genesis.first_block));
+        }
+        self.0.schedule_queries.fetch_add(1, Ordering::SeqCst);
+        let e = self.0.epochs.iter().rposition(|(_, act, _)| *act <= n.0).unwrap_or(0);
+        Ok((self.0.epochs[e].0.clone(), validator::BlockNumber(self.0.epochs[e].1)))
     }
-    async fn get_pending_validator_schedule(&self, _ctx: &ctx::Ctx, _n: validator::BlockNumber) -> ctx::Result<Option<(validator::Schedule, validator::BlockNumber)>> {
-        Ok(None)
+    async fn get_pending_validator_schedule(&self, _ctx: &ctx::Ctx, n: validator::BlockNumber) -> ctx::Result<Option<(validator::Schedule, validator::BlockNumber)>> {
+        if self.0.epochs.is_empty() {
+            return Ok(None);
+        }
+        self.0.schedule_queries.fetch_add(1, Ordering::SeqCst);
+        let e = self.0.epochs.iter().rposition(|(_, act, _)| *act <= n.0).unwrap_or(0);
+        Ok(match self.0.epochs.get(e + 1) {
+            Some((s, act, publish)) if n.0 >= *publish => Some((s.clone(), validator::BlockNumber(*act))),
+            _ => None,
+        })
     }
     fn persisted(&self) -> sync::watch::Receiver<BlockStoreState> {
         self.0.persisted.subscribe()
@@ -189,10 +206,122 @@ struct Offer {
 }
 
 struct Fixture {
-    setup: Setup,
+    genesis: validator::Genesis,
     chain: Vec<validator::Block>,
     fork: Vec<validator::Block>,
     invalid: Vec<Offer>,
+    epochs: Vec<(validator::Schedule, u64, u64)>,
+    /// (rotating committees only) a block right after the end of the chain, certified by the committee of the LAST BUT ONE epoch
+    /// for that epoch - i.e. by a committee whose term has expired. Offered once at the very end; its fate is recorded as an
+    /// observation, not judged (see DESIGN.md 9.5).
+    expired_committee_block: Option<validator::Block>,
+}
+
+fn certified(rng: &mut StdRng, genesis: validator::GenesisHash, epoch: u64, view: u64, number: u64, keys: &[validator::SecretKey], schedule: &validator::Schedule) -> validator::v2::FinalBlock {
+    let payload = validator::Payload((0..rng.gen_range(1..60)).map(|_| rng.gen()).collect());
+    let vote = validator::v2::ReplicaCommit {
+        view: validator::v2::View { genesis, epoch: validator::EpochNumber(epoch), number: validator::ViewNumber(view) },
+        proposal: validator::v2::BlockHeader { number: validator::BlockNumber(number), payload: payload.hash() },
+    };
+    let mut qc = validator::v2::CommitQC::new(vote.clone(), schedule);
+    for k in keys {
+        qc.add(&k.sign_msg(vote.clone()), genesis, validator::EpochNumber(epoch), schedule).expect("own vote");
+    }
+    validator::v2::FinalBlock::new(payload, qc)
+}
+
+/// A chain certified by 2-4 successive committees (validator rotation): the genesis has no static schedule, the execution layer
+/// reports the schedule in force at a block and announces the next one as pending some blocks before it takes over.
+fn make_epoch_fixture(rng: &mut StdRng, len: usize) -> Fixture {
+    let first = [0u64, 0, 1, 5, 1000][rng.gen_range(0..5)];
+    let genesis = validator::GenesisRaw {
+        chain_id: validator::ChainId(rng.gen_range(1..1000)),
+        fork_number: validator::ForkNumber(rng.gen_range(0..5)),
+        first_block: validator::BlockNumber(first),
+        protocol_version: validator::ProtocolVersion::CURRENT,
+        validators_schedule: None,
+    }
+    .with_hash();
+    let g = genesis.hash();
+    let nep = rng.gen_range(2..=4usize);
+    let mut committees: Vec<(Vec<validator::SecretKey>, validator::Schedule)> = vec![];
+    for _ in 0..nep {
+        // same size for every committee, so that a certificate of one committee is well-formed (bitmap length) for any other
+        let keys: Vec<validator::SecretKey> = (0..3).map(|_| rng.gen()).collect();
+        let sched = validator::Schedule::new(keys.iter().map(|k| validator::ValidatorInfo { key: k.public(), weight: rng.gen_range(1..4), leader: true }), validator::LeaderSelection::default()).unwrap();
+        // keys in schedule order
+        let keys = sched.iter().map(|v| keys.iter().find(|k| k.public() == v.key).unwrap().clone()).collect();
+        committees.push((keys, sched));
+    }
+    // epoch boundaries
+    let mut acts = vec![first];
+    for e in 1..nep {
+        let lo = acts[e - 1] + 3;
+        let hi = first + (len * e / nep) as u64 + 2;
+        acts.push(rng.gen_range(lo..lo.max(hi) + 1));
+    }
+    let mut epochs = vec![];
+    for e in 0..nep {
+        let publish = if e == 0 { first } else { rng.gen_range(acts[e - 1] + 1..acts[e]) };
+        epochs.push((committees[e].1.clone(), acts[e], publish));
+    }
+    let epoch_of = |n: u64| acts.iter().rposition(|a| *a <= n).unwrap();
+    let mut chain = vec![];
+    let mut view = 0u64;
+    for i in 0..len as u64 {
+        let n = first + i;
+        let e = epoch_of(n);
+        if n == acts[e] {
+            view = 0;
+        }
+        view += rng.gen_range(1..3);
+        chain.push(validator::Block::FinalV2(certified(rng, g, e as u64, view, n, &committees[e].0, &committees[e].1)));
+    }
+    let mut invalid = vec![];
+    let finals: Vec<validator::v2::FinalBlock> = chain.iter().filter_map(|b| if let validator::Block::FinalV2(f) = b { Some(f.clone()) } else { None }).collect();
+    for _ in 0..60 {
+        let f = finals.choose(rng).unwrap().clone();
+        let n = f.number().0;
+        let e = epoch_of(n);
+        let other = (e + rng.gen_range(1..nep)) % nep;
+        let (class, bad): (&'static str, validator::Block) = match rng.gen_range(0..7) {
+            // right number and epoch, but certified by the committee of another epoch
+            0 | 1 => ("certified-by-the-committee-of-another-epoch", certified(rng, g, e as u64, 3, n, &committees[other].0, &committees[other].1).into()),
+            // a genuine certificate re-labelled with another (known) epoch
+            2 => {
+                let mut b = f.clone();
+                b.justification.message.view.epoch = validator::EpochNumber(other as u64);
+                ("certificate-relabelled-with-another-epoch", b.into())
+            }
+            3 => {
+                let mut b = f.clone();
+                b.payload.0.push(1);
+                ("payload-hash-mismatch", b.into())
+            }
+            4 => {
+                let mut b = f.clone();
+                b.justification.message.view.epoch = validator::EpochNumber(77);
+                ("unknown-epoch", b.into())
+            }
+            5 => {
+                let mut b = f.clone();
+                let k = b.justification.signers.len();
+                for i in 1..k {
+                    b.justification.signers.0.set(i, false);
+                }
+                ("certificate-below-quorum", b.into())
+            }
+            _ => {
+                let mut b = f.clone();
+                b.justification.signature = Default::default();
+                ("bad-certificate-signature", b.into())
+            }
+        };
+        invalid.push(Offer { block: bad, class, valid: false });
+    }
+    let after = first + len as u64;
+    let expired = certified(rng, g, nep as u64 - 2, 1_000_000, after, &committees[nep - 2].0, &committees[nep - 2].1);
+    Fixture { genesis, chain, fork: vec![], invalid, epochs, expired_committee_block: Some(expired.into()) }
 }
 
 fn make_fixture(rng: &mut StdRng, len: usize) -> Fixture {
@@ -263,7 +392,7 @@ fn make_fixture(rng: &mut StdRng, len: usize) -> Fixture {
         };
         invalid.push(Offer { block: bad, class, valid: false });
     }
-    Fixture { setup, chain, fork, invalid }
+    Fixture { genesis: setup.genesis.clone(), chain, fork, invalid, epochs: vec![], expired_committee_block: None }
 }
 
 struct Probe {
@@ -345,10 +474,13 @@ impl Probe {
 fn run_case(rep: &mut Report, args: &Args, case: u64, multi: bool) {
     let mut rng = rng_for(args.seed, args.shard, 8, case);
     let len = rng.gen_range(110..260usize);
-    let fx = make_fixture(&mut rng, len);
-    let first_stored = fx.chain.first().map(|b| b.number()).unwrap_or(fx.setup.first_block());
+    let rotating = case % 3 == 2;
+    let fx = if rotating { make_epoch_fixture(&mut rng, len) } else { make_fixture(&mut rng, len) };
+    let first_stored = fx.chain.first().map(|b| b.number()).unwrap_or(fx.genesis.first_block);
     let engine = MonEngine(Arc::new(Inner {
-        genesis: fx.setup.genesis.clone(),
+        epochs: fx.epochs.clone(),
+        schedule_queries: AtomicU64::new(0),
+        genesis: fx.genesis.clone(),
         persisted: sync::watch::channel(BlockStoreState { first: first_stored, last: None }).0,
         blocks: Mutex::default(),
         pregenesis: fx.chain.iter().filter_map(|b| if let validator::Block::PreGenesis(p) = b { Some((p.number.0, p.clone())) } else { None }).collect(),
@@ -361,7 +493,7 @@ fn run_case(rep: &mut Report, args: &Args, case: u64, multi: bool) {
         stop: AtomicBool::new(false),
     }));
     let mut valid: HashMap<(u64, validator::PayloadHash), ()> = HashMap::new();
-    for b in fx.chain.iter().chain(fx.fork.iter()) {
+    for b in fx.chain.iter().chain(fx.fork.iter()).chain(fx.expired_committee_block.iter()) {
         valid.insert((b.number().0, b.payload().hash()), ());
     }
     let probe = Probe { seen: Mutex::default(), last_persisted_next: AtomicU64::new(0), last_queued_next: AtomicU64::new(0), violations: Mutex::default(), readbacks: AtomicU64::new(0), max_lag: AtomicU64::new(0), max_queued_span: AtomicU64::new(0) };
@@ -369,14 +501,18 @@ fn run_case(rep: &mut Report, args: &Args, case: u64, multi: bool) {
     let phases = rng.gen_range(2..5);
     // a validly certified fork and a side channel that persists canonical blocks cannot coexist in one world:
     // a case offers either fork blocks or side-channel jumps
-    let with_fork = rng.gen_bool(0.5);
+    let with_fork = rng.gen_bool(0.5) && !rotating;
     let counters: Mutex<BTreeMap<String, u64>> = Mutex::default();
     let bump = |k: &str| *counters.lock().unwrap().entry(k.to_string()).or_default() += 1;
     let last_number = fx.chain.last().unwrap().number().0;
     if first_stored.0 == 0 {
         bump("chains_starting_at_block_0");
     }
-    if fx.setup.first_block() == first_stored {
+    if rotating {
+        bump("cases_with_rotating_committees");
+        *counters.lock().unwrap().entry("committee_epochs".to_string()).or_default() += fx.epochs.len() as u64;
+    }
+    if fx.genesis.first_block == first_stored {
         bump("chains_without_pregenesis_blocks");
     }
     rt.block_on(async {
@@ -394,7 +530,7 @@ fn run_case(rep: &mut Report, args: &Args, case: u64, multi: bool) {
                 let d = engine.next();
                 probe.seen.lock().unwrap().retain(|n, _| *n < d);
             }
-            let (manager, runner) = match EngineManager::new(&root, Box::new(engine.clone()), time::Duration::seconds(1)).await {
+            let (manager, runner) = match EngineManager::new(&root, Box::new(engine.clone()), if rotating { time::Duration::milliseconds(2) } else { time::Duration::seconds(1) }).await {
                 Ok(x) => x,
                 Err(e) => {
                     probe.fail("manager-start-failed", format!("{e:?}"));
@@ -561,6 +697,11 @@ fn run_case(rep: &mut Report, args: &Args, case: u64, multi: bool) {
                 }
                 // final probes at the end of the phase
                 probe.check(ctx, manager, engine, valid, 7).await;
+                if let (true, Some(b)) = (last_phase && engine.next() > last_number, &fx.expired_committee_block) {
+                    // observation only: a block past the end of the chain certified by a committee whose term has expired
+                    let r = manager.queue_block(&ctx.with_timeout(time::Duration::milliseconds(100)), b.clone()).await;
+                    bump(if r.is_ok() { "observation_block_of_an_expired_committee_accepted" } else { "observation_block_of_an_expired_committee_refused" });
+                }
                 if last_phase && engine.next() <= last_number && t0.elapsed().as_millis() as u64 > budget_ms {
                     // wall-clock watchdog: never a verdict
                     probe.fail("INCONCLUSIVE-watchdog", format!("final phase did not finish within {budget_ms} ms"));
